@@ -25,14 +25,17 @@ theorem ogg_vcomment_load_inverts_write (vendor : Bytes) (cs : List (Bytes × By
     loadVC (Vorbis.encode vendor cs framing ++ rest) framing = .ok (vendor, cs, rest) :=
   loadVC_encode vendor cs framing rest hv hn h
 
-/-- (a) mutagen's own reader, Vorbis / Speex / Theora / Ogg FLAC: on a well-formed layout, for any
-vendor string and comment list the codec can encode and any padding answer, `save` succeeds, and loading
-the saved file — the codec's comment constructor started where the info constructor stops (`pre1`: up to
-and including the identification page; no page of the stream between it and the comment run) followed by
-`VComment.load` — returns exactly that vendor string and that comment list.  Hypotheses on the stream:
-continuation flags consistent, pages numbered without gaps, last page complete; `hhead`: the first new
-page holds data (true of `from_packets` for every default_size ≥ 29, not proved). -/
-theorem ogg_saved_comment_reads_back (c : Codec) (hc : c ≠ .opus) (L : Layout) (h : L.OK c) (hfresh : L.c1.continued = false)
+/-- (a) mutagen's own reader, all five codecs (Vorbis, Opus, Speex, Theora, Ogg FLAC): on a well-formed
+layout, for any vendor string and comment list the codec can encode and any padding answer, `save`
+succeeds, and loading the saved file — the codec's comment constructor started where the info constructor
+stops (`pre1`: up to and including the identification page; no page of the stream between it and the
+comment run) followed by `VComment.load` — returns exactly that vendor string and that comment list.
+For Opus the constructor is the other loop of the library (scan for the first page of the stream whose
+first packet starts with "OpusTags", then collect pages until one is closed).  Hypotheses on the stream:
+continuation flags consistent, pages numbered without gaps, last page complete.  That the first new page
+holds data is proved for both ways `_from_packets_try_preserve` lays the packets out (`new_head_nonempty`:
+`from_packets` with the real default sizes never emits an empty page). -/
+theorem ogg_saved_comment_reads_back (c : Codec) (L : Layout) (h : L.OK c) (hfresh : L.c1.continued = false)
     (hflags : contOK false (stream L.serial L.pages))
     (a : Nat) (hnum : (stream L.serial L.pages).map (·.sequence) = List.range' a (stream L.serial L.pages).length)
     (hend : ∀ l, (stream L.serial L.pages).getLast? = some l → l.complete = true)
@@ -43,13 +46,36 @@ theorem ogg_saved_comment_reads_back (c : Codec) (hc : c ≠ .opus) (L : Layout)
     (hpk : toPackets L.oldPages false = .ok (old0 :: others)) (hflac : c = .flac → old0 ≠ [])
     (hnp : newPacket c old0 (Vorbis.encode vendor cs c.framing) padData pad L.render.length = .ok new0)
     (hnew : newPages c (new0 :: others) L.oldPages = .ok new)
-    (hseq : L.c1.sequence + new.length + (L.post.filter (·.serial = L.serial)).length ≤ 2 ^ 32)
-    (hhead : ∀ p, new.head? = some p → p.packets ≠ []) :
+    (hseq : L.c1.sequence + new.length + (L.post.filter (·.serial = L.serial)).length ≤ 2 ^ 32) :
     ∃ out rest, save c L.render (Vorbis.encode vendor cs c.framing) padData pad = .ok out ∧
       readTags c out L.serial (renderPages pre1).length = .ok (vendor, cs, rest) := by
-  obtain ⟨rest, hr⟩ := readTags_after c hc L h hfresh hflags a hnum hend pre1 pre2 hpre hpre2 vendor cs hv hn hcs padData pad
-    old0 new0 others new hpk hflac hnp hnew hseq hhead
+  obtain ⟨rest, hr⟩ := readTags_saved c L h hfresh hflags a hnum hend pre1 pre2 hpre hpre2 vendor cs hv hn hcs padData pad
+    old0 new0 others new hpk hflac hnp hnew hseq
   exact ⟨_, rest, (save_spec c L h (streamOK_of_contOK c L h hfresh hflags) _ padData pad old0 new0 others new hpk hnp hnew hseq).1, hr⟩
+
+/-- the step (a) rests on, by itself: the comment constructor of each codec finds the new comment packet
+in the saved file and hands it to `VComment.load` without the codec's prefix (Opus: provided the packet
+starts with "OpusTags", which `newPacket` guarantees) -/
+theorem ogg_saved_packet_found (c : Codec) (L : Layout) (h : L.OK c) (hfresh : L.c1.continued = false)
+    (hflags : contOK false (stream L.serial L.pages))
+    (a : Nat) (hnum : (stream L.serial L.pages).map (·.sequence) = List.range' a (stream L.serial L.pages).length)
+    (hend : ∀ l, (stream L.serial L.pages).getLast? = some l → l.complete = true)
+    (pre1 pre2 : List Page) (hpre : L.pre = pre1 ++ pre2) (hpre2 : ∀ p ∈ pre2, p.serial ≠ L.serial)
+    (old0 new0 : Bytes) (others : List Bytes) (new : List Page)
+    (hpk : toPackets L.oldPages false = .ok (old0 :: others))
+    (hnew : newPages c (new0 :: others) L.oldPages = .ok new)
+    (hseq : L.c1.sequence + new.length + (L.post.filter (·.serial = L.serial)).length ≤ 2 ^ 32)
+    (hmagic : c = .opus → magicOpusTags <+: new0) :
+    readComment c (renderPages (L.after new)) L.serial (renderPages pre1).length = .ok (new0.drop c.stripLen) :=
+  readComment_after c L h hfresh hflags a hnum hend pre1 pre2 hpre hpre2 old0 new0 others new hpk hnew hseq hmagic
+
+/-- whichever way the new packets are laid out, the first new page holds a packet -/
+theorem ogg_first_new_page_holds_data (c : Codec) (L : Layout) (h : L.OK c) (hfresh : L.c1.continued = false)
+    (old0 new0 : Bytes) (others : List Bytes) (new : List Page)
+    (hpk : toPackets L.oldPages false = .ok (old0 :: others))
+    (hnew : newPages c (new0 :: others) L.oldPages = .ok new) :
+    ∀ p, new.head? = some p → p.packets ≠ [] :=
+  new_head_nonempty c L h hfresh old0 new0 others new hpk hnew
 
 /-- (b) the independent reading, all five codecs: the strict page reader (capture pattern, version,
 lacing, extent, RFC 3533 checksum) reads the saved bytes back into pages; the edited stream's packets
@@ -85,8 +111,7 @@ theorem ogg_saved_packet_shape (c : Codec) (old0 vc padData : Bytes) (pad : PadC
   newPacket_shape c old0 vc padData pad fsize new0 hflac h
 
 /-- delete: the saved comment is "vendor string, no entries" — mutagen's own reader returns the vendor
-string and an empty list (Vorbis / Speex / Theora / Ogg FLAC), and the strict reading of the bytes gives
-the same (all five codecs) -/
+string and an empty list, and the strict reading of the bytes gives the same (all five codecs) -/
 theorem ogg_delete_reads_back_empty (c : Codec) (L : Layout) (h : L.OK c) (hfresh : L.c1.continued = false)
     (hflags : contOK false (stream L.serial L.pages))
     (a : Nat) (hnum : (stream L.serial L.pages).map (·.sequence) = List.range' a (stream L.serial L.pages).length)
@@ -97,18 +122,15 @@ theorem ogg_delete_reads_back_empty (c : Codec) (L : Layout) (h : L.OK c) (hfres
     (hpk : toPackets L.oldPages false = .ok (old0 :: others)) (hflac : c = .flac → old0 ≠ [])
     (hnp : newPacket c old0 (Vorbis.encode vendor [] c.framing) padData (.callback fun _ _ => 0) L.render.length = .ok new0)
     (hnew : newPages c (new0 :: others) L.oldPages = .ok new)
-    (hseq : L.c1.sequence + new.length + (L.post.filter (·.serial = L.serial)).length ≤ 2 ^ 32)
-    (hhead : ∀ p, new.head? = some p → p.packets ≠ []) :
+    (hseq : L.c1.sequence + new.length + (L.post.filter (·.serial = L.serial)).length ≤ 2 ^ 32) :
     delete c L.render vendor padData = .ok (renderPages (L.after new)) ∧
     readAll ((renderPages (L.after new)).length + 1) (renderPages (L.after new)) = some (L.after new) ∧
     Vorbis.decode (new0.drop c.stripLen) c.framing = some (vendor, []) ∧
-    (c ≠ .opus → ∃ rest, readTags c (renderPages (L.after new)) L.serial (renderPages pre1).length = .ok (vendor, [], rest)) := by
+    (∃ rest, readTags c (renderPages (L.after new)) L.serial (renderPages pre1).length = .ok (vendor, [], rest)) := by
   obtain ⟨h1, h2, _, h4⟩ := strict_after c L h hfresh hflags vendor [] hv (by decide) (by simp) padData _ old0 new0 others new
     hpk hflac hnp hnew hseq
-  refine ⟨h1, h2, h4, ?_⟩
-  intro hc
-  exact readTags_after c hc L h hfresh hflags a hnum hend pre1 pre2 hpre hpre2 vendor [] hv (by decide) (by simp) padData _
-    old0 new0 others new hpk hflac hnp hnew hseq hhead
+  exact ⟨h1, h2, h4, readTags_saved c L h hfresh hflags a hnum hend pre1 pre2 hpre hpre2 vendor [] hv (by decide) (by simp) padData _
+    old0 new0 others new hpk hflac hnp hnew hseq⟩
 
 /-! non-vacuity -/
 
@@ -130,6 +152,17 @@ vendor string, both comments, and the two padding bytes as the rest -/
 example : (save .vorbis Example.layout.render (Vorbis.encode [0x58, 0x69] [([0x41], [0x62]), ([0x54, 0x49, 0x54, 0x4C, 0x45], [0x78])] true)
       [] (.callback fun _ _ => 2)).bind (fun out => readTags .vorbis out 7 (renderPages [Example.idPage]).length) =
     .ok ([0x58, 0x69], [([0x41], [0x62]), ([0x54, 0x49, 0x54, 0x4C, 0x45], [0x78])], [0, 0]) := by
+  decide +kernel
+
+/-- the Opus reader, computed: an Opus file of three pages ("OpusHead" page, "OpusTags" page with an
+empty comment, an audio page); save the comment vendor "X", A=b with a padding answer of 2, then load
+with the Opus comment constructor from behind the head page — vendor, comment, the two padding bytes -/
+example :
+    let head : Page := { packets := [magicOpusHead ++ [1, 2, 0, 0, 0, 0, 0, 0, 0, 0, 0]], serial := 7, sequence := 0, first := true }
+    let tags : Page := { packets := [magicOpusTags ++ [0, 0, 0, 0, 0, 0, 0, 0]], serial := 7, sequence := 1 }
+    let audio : Page := { packets := [[9, 9], [8]], serial := 7, sequence := 2, last := true, position := 100 }
+    (save .opus (renderPages [head, tags, audio]) (Vorbis.encode [0x58] [([0x41], [0x62])] false) [] (.callback fun _ _ => 2)).bind
+      (fun out => readTags .opus out 7 (renderPages [head]).length) = .ok ([0x58], [([0x41], [0x62])], [0, 0]) := by
   decide +kernel
 
 end Mutagen.C01
